@@ -131,6 +131,62 @@ def task_masks():
     return col.pack()
 
 
+def task_masks_after_reassignment():
+    """the masks follow the band limits the object holds NOW: all seven properties are evaluated once (whatever that leaves on the object), the
+    user then assigns new limits through the real setters of fmin / fmax, and the properties are evaluated again -- same clauses, new limits"""
+    col = ob.Collector(PROP, 'time.Fourier/masks_after_reassignment')
+    col.default_replay = replay
+    for p in ('fmin', 'fmax', 'ifreq_compute', 'ifreq_extrapolate', 'ifreq_interpolate', 'freq_coarse'):
+        col.function(f'time.Fourier.{p}')
+    FMIN2, FMAX2 = z3.Reals('fmin_assigned_later fmax_assigned_later')
+    pre = [FMIN <= FMAX, FMIN2 <= FMAX2, z3.Int('every_x') >= 1]
+    names = ('ifreq_extrapolate', 'ifreq_interpolate', 'ifreq_compute', 'freq_coarse', 'freq_compute', 'freq_interpolate', 'freq_extrapolate')
+    res = []
+    for coarse in ('none', 'every', 'input'):
+        def run(ctx, coarse=coarse):
+            it = cx.Interp(ctx, 'time')
+            fo = cx.Obj('Fourier', dict(_freq_req=cx.NDArr(cx.Store('freq_required', F)), _fmin=FMIN, _fmax=FMAX, _time=cx.NDArr(cx.Store('time')), _signal=cx.Opaque('signal'),
+                                        _ft=cx.Opaque('ft'), _ftarg=cx.Opaque('ftarg'), verb=0, __strict__=True,
+                                        _every_x_freq=(z3.Int('every_x') if coarse == 'every' else None),
+                                        _input_freq=(cx.NDArr(cx.Store('input_freq', C)) if coarse == 'input' else None)), mod='time')
+            st = dict(fo=fo, coarse=coarse)
+            try:
+                for n in names:
+                    it.getattr(fo, n)
+                it.setattr(fo, 'fmin', FMIN2)
+                it.setattr(fo, 'fmax', FMAX2)
+                for n in names:
+                    st[n] = it.getattr(fo, n)
+            except cx._Raise as e:
+                return 'raise', e.exc, st
+            return 'return', None, st
+        res += cx.explore(run, pc0=pre)
+    clause(col, 'properties_evaluate', res, lambda r: r.outcome == 'return')
+
+    def val(x):
+        return x.store.val if isinstance(x, cx.NDArr) else None
+
+    def partition(r):
+        e, i = val(r.state['ifreq_extrapolate']), val(r.state['ifreq_interpolate'])
+        if e is None or i is None:
+            return False
+        return z3.And(e == (F < FMIN2), i == z3.And(F >= FMIN2, F <= FMAX2))
+    clause(col, 'groups_below_and_within_follow_the_limits_assigned_last', res, partition, pre, sample=True)
+
+    def compute(r):
+        m, fc = val(r.state['ifreq_compute']), r.state['freq_coarse']
+        if m is None or not isinstance(fc, cx.NDArr) or fc.store.val is None:
+            return False
+        v = fc.store.val
+        sel = getattr(r.state['freq_compute'], 'mask_of', None)
+        ok = sel is not None and sel[0].store is fc.store and sel[1].store.val is not None and sel[1].store.val.eq(m)
+        return z3.And(z3.BoolVal(ok), m == z3.And(v >= FMIN2, v <= FMAX2))
+    clause(col, 'computed_frequencies_are_the_coarse_frequencies_inside_the_band_assigned_last', res, compute, pre)
+    canary(col, 'canary/masks_still_follow_the_limits_of_the_construction', res,
+           lambda r: val(r.state['ifreq_interpolate']) == z3.And(F >= FMIN, F <= FMAX), pre)
+    return col.pack()
+
+
 def task_interpolate():
     col = ob.Collector(PROP, 'time.Fourier.interpolate')
     col.default_replay = replay
@@ -280,7 +336,7 @@ def task_concrete():
 
 
 def tasks(tier):
-    return [('contracts.c20', n, {}) for n in ('task_masks', 'task_interpolate', 'task_extension_point', 'task_freq2time', 'task_concrete')]
+    return [('contracts.c20', n, {}) for n in ('task_masks', 'task_masks_after_reassignment', 'task_interpolate', 'task_extension_point', 'task_freq2time', 'task_concrete')]
 
 
 LEVEL = ('Proof by element-wise lifting over the generic required / coarse frequency (control executor, all paths of the bookkeeping properties and of interpolate(), '
